@@ -202,6 +202,12 @@ impl PartitionStorage for FilePartitionStorage {
             }
 
             partition.current_offset = last_segment.current_offset;
+            // The last segment is empty and does not start at offset 0 (e.g. it has been created after
+            // all the previous segments were deleted), so the next message has to get its start offset.
+            if last_segment.size_bytes == 0 && last_segment.start_offset > 0 {
+                partition.current_offset = last_segment.start_offset - 1;
+                partition.should_increment_offset = true;
+            }
         }
 
         partition
